@@ -88,7 +88,7 @@ def b_all(I, a, k, isall=True):
         if isinstance(lst, Ref) and lst.kind == 'slist':
             c = I.st.heap[lst]
             kk = z3.Int(I.st.fresh_name('k!A'))
-            el = z3.Select(c['arr'], kk) != 0
+            el = z3.Select(c['arr'], kk) if c['ek'] == 'bool' else z3.Select(c['arr'], kk) != 0
             rng = z3.And(kk >= 0, kk < c['len'])
             return SV(z3.ForAll([kk], z3.Implies(rng, el)) if isall else z3.Exists([kk], z3.And(rng, el)), 'bool')
         raise Unsupported('all/any over %r' % (lst,))
@@ -302,7 +302,25 @@ def b_str(I, a, k):
 
 
 def b_iter(I, a, k):
-    return a[0]
+    v = a[0]
+    if numkind(v) is not None or v is None or isinstance(v, (Closure, AbsFun, Builtin, SOpaque)):
+        raise PyExc('TypeError', 'object is not iterable')
+    return v
+
+
+def f_reduce(I, a, k):
+    items = Mo.concrete_iter(I, a[1])
+    if items is None:
+        raise Unsupported('functools.reduce over a symbolic sequence')
+    if len(a) > 2:
+        acc = a[2]
+    else:
+        if not items:
+            raise PyExc('TypeError', 'reduce() of empty sequence')
+        acc, items = items[0], items[1:]
+    for x in items:
+        acc = I.call(a[0], [acc, x], {})
+    return acc
 
 
 def b_enumerate(I, a, k):
@@ -476,9 +494,32 @@ def _quant(I, a, isall):
             r = I.land(r, v) if isall else I.lor(r, v)
         return r
     k = z3.Int(I.st.fresh_name('q'))
-    body = I.truth_term(I.call(f, [SV(k, 'int')], {}))
-    body = z3.BoolVal(body) if isinstance(body, bool) else body
     rng = z3.And(k >= zint(lo), k < zint(hi))
+    st = I.st
+    st.solver.push()
+    st.solver.add(rng)
+    old_branch = st.branch
+
+    def nb(cond):
+        c = z3.simplify(cond)
+        if z3.is_true(c):
+            return True
+        if z3.is_false(c):
+            return False
+        ft = st.feasible(c)
+        ff = st.feasible(z3.Not(c))
+        if ft and not ff:
+            return True
+        if ff and not ft:
+            return False
+        raise Unsupported('quantifier body needs a case split')
+    st.branch = nb
+    try:
+        body = I.truth_term(I.call(f, [SV(k, 'int')], {}))
+    finally:
+        st.branch = old_branch
+        st.solver.pop()
+    body = z3.BoolVal(body) if isinstance(body, bool) else body
     return SV(z3.ForAll([k], z3.Implies(rng, body)) if isall else z3.Exists([k], z3.And(rng, body)), 'bool')
 
 
@@ -633,6 +674,7 @@ def lib_lookup(I, dotted):
         'numpy.add': ModRef('numpy.add'),
         'numpy.add.reduce': Builtin('numpy.add.reduce', np_add_reduce),
         'numpy.float64': TypeTag('float'),
+        'functools.reduce': Builtin('functools.reduce', f_reduce),
         'math.sqrt': Builtin('math.sqrt', lambda I_, a, k: Mo.power(I_, a[0], 0.5)),
         'collections.abc.Callable': TypeTag('Callable'),
         'collections.Callable': TypeTag('Callable'),
